@@ -71,7 +71,11 @@ class WorkerRegistry(collections.UserDict[str, float | None]):
   def register(self, address: str, time_: float):
     """Register a new client."""
     with self._lock:
-      self.data[address] = time_
+      # A (re)registration revives a worker that was pronounced dead, but the
+      # heartbeat of a live worker never moves backwards (concurrent heartbeat
+      # handlers can arrive out of order).
+      last_time = self.data.get(address)
+      self.data[address] = max(last_time, time_) if last_time else time_
     logging.info('chainable: %s', f'registering worker "{address}"')
 
   def unregister(self, address: str):
